@@ -16,6 +16,9 @@ pub enum MutKind {
     Move(String, String),
     /// unlink or rmdir
     Remove(String),
+    /// over-mount an entry of the jail's /proc ({PID} = the traced worker); index into mountmc kinds
+    Mount(crate::mountmc::MKind, String),
+    Umount(String),
 }
 
 /// Paths are absolute, outside view (inside /verif/.jail).
@@ -29,8 +32,26 @@ impl Mutation {
     pub fn xchg(a: &str, b: &str) -> Mutation { Mutation { name: format!("xchg({},{})", short(a), short(b)), kind: MutKind::Xchg(a.into(), b.into()) } }
     pub fn mv(a: &str, b: &str) -> Mutation { Mutation { name: format!("move({}->{})", short(a), short(b)), kind: MutKind::Move(a.into(), b.into()) } }
     pub fn rm(a: &str) -> Mutation { Mutation { name: format!("remove({})", short(a)), kind: MutKind::Remove(a.into()) } }
+    pub fn mount(kind: crate::mountmc::MKind, rel: &str) -> Mutation { Mutation { name: format!("mount({:?} over {})", kind, rel), kind: MutKind::Mount(kind, rel.into()) } }
+    pub fn umount(rel: &str) -> Mutation { Mutation { name: format!("umount({})", rel), kind: MutKind::Umount(rel.into()) } }
+    pub fn enabled_in(&self, mounted: &BTreeSet<String>, pid: i32) -> bool {
+        match &self.kind {
+            MutKind::Mount(_, rel) => !mounted.contains(rel) && lstat(&format!("{}/{}", out("/proc"), rel.replace("{PID}", &pid.to_string()))).is_some(),
+            MutKind::Umount(rel) => mounted.contains(rel),
+            _ => self.enabled(),
+        }
+    }
+    pub fn apply_in(&self, mounted: &mut BTreeSet<String>, pid: i32) -> MResult<()> {
+        let abs = |rel: &str| format!("{}/{}", out("/proc"), rel.replace("{PID}", &pid.to_string()));
+        match &self.kind {
+            MutKind::Mount(k, rel) => { crate::mountmc::mount_one(k, &abs(rel), 1).map_err(|e| Mach(format!("racing mount {} failed: {}", self.name, errname(e))))?; mounted.insert(rel.clone()); Ok(()) }
+            MutKind::Umount(rel) => { crate::mountmc::umount_one(&abs(rel)).map_err(|e| Mach(format!("racing umount {} failed: {}", self.name, errname(e))))?; mounted.remove(rel); Ok(()) }
+            _ => self.apply(),
+        }
+    }
     pub fn enabled(&self) -> bool {
         match &self.kind {
+            MutKind::Mount(..) | MutKind::Umount(..) => false,
             MutKind::Xchg(a, b) => lstat(a).is_some() && lstat(b).is_some(),
             MutKind::Move(a, b) => lstat(a).is_some() && lstat(b).is_none(),
             MutKind::Remove(a) => match lstat(a) { Some(st) => !st.is_dir() || std::fs::read_dir(a).map(|mut d| d.next().is_none()).unwrap_or(false), None => false },
@@ -38,6 +59,7 @@ impl Mutation {
     }
     pub fn apply(&self) -> MResult<()> {
         let r = match &self.kind {
+            MutKind::Mount(..) | MutKind::Umount(..) => return mach("mount mutations need apply_in"),
             MutKind::Xchg(a, b) => renameat2(a, b, libc::RENAME_EXCHANGE),
             MutKind::Move(a, b) => renameat2(a, b, libc::RENAME_NOREPLACE),
             MutKind::Remove(a) => {
@@ -83,6 +105,8 @@ pub struct ExecCfg {
     pub root_out: String,
     pub horizon: u64,
     pub timeout_s: u32,
+    /// attacker choice points also before path-taking syscalls on procfs descriptors (racing mounts, C06)
+    pub attack_procfs: bool,
 }
 
 #[derive(Default, Debug)]
@@ -171,6 +195,7 @@ pub fn execute(cfg: &ExecCfg, ch: &mut Chooser) -> MResult<ExecOut> {
     // fault-mode state
     let mut eagain_left: u32 = 0;
     let mut exhaust = false;
+    let mut mounted: BTreeSet<String> = BTreeSet::new();
 
     // advance worker w until it is parked at a tree-relevant syscall entry (Sched/Attack) or has left the window
     // returns Ok(()) normally
@@ -193,6 +218,7 @@ pub fn execute(cfg: &ExecCfg, ch: &mut Chooser) -> MResult<ExecOut> {
                         }
                         let mut ev = ts[w].decode_entry(w)?;
                         ev.tree_rel = is_tree_rel(&ev, tree_dev);
+                        if cfg.attack_procfs && ev.path.is_some() && !matches!(ev.name.as_str(), "fsopen" | "fsconfig") && (ev.fdid.as_ref().map(|i| i.fstype == PROC_MAGIC).unwrap_or(false) || ev.path.as_deref() == Some("/proc")) { ev.tree_rel = true; }
                         if $stop_at_tree && ev.tree_rel { parked[w] = Some(ev); break; }
                         ev
                     }
@@ -209,11 +235,11 @@ pub fn execute(cfg: &ExecCfg, ch: &mut Chooser) -> MResult<ExecOut> {
                 match &cfg.mode {
                     _ if spurious_retry => {}
                     Mode::Attack(muts) if ev.tree_rel => {
-                        let enabled: Vec<&Mutation> = muts.iter().filter(|m| m.enabled()).collect();
+                        let enabled: Vec<&Mutation> = muts.iter().filter(|m| m.enabled_in(&mounted, ts[w].pid)).collect();
                         let k = ch.choose(&format!("atk@{}", ev.sig()), 1 + enabled.len() as u32, 1)?;
                         if k > 0 {
                             let m = enabled[(k - 1) as usize];
-                            m.apply()?;
+                            m.apply_in(&mut mounted, ts[w].pid)?;
                             out.applied.push((out.events.len(), m.name.clone()));
                             out.ever_inside.extend(walk_inodes(&cfg.root_out));
                         }
@@ -304,6 +330,8 @@ pub fn execute(cfg: &ExecCfg, ch: &mut Chooser) -> MResult<ExecOut> {
         let _ = w;
     }
     unsafe { libc::alarm(0) };
+    // racing mounts left behind by this execution are removed (the worker has exited; its pid directory is gone, detach by path of survivors)
+    for rel in mounted.iter().rev() { let abs = format!("{}/{}", crate::sys::out("/proc"), rel.replace("{PID}", &ts[0].pid.to_string())); let _ = crate::mountmc::umount_one(&abs); }
     for t in ts.iter_mut() {
         out.obs.push(t.output.take());
         out.killed.push(t.killed_by);
